@@ -34,6 +34,10 @@ func builderList(thorough bool) []builder {
 		{name: "rpm", fn: buildRPM, skip: noECDSA},
 		{name: "pgp-clearsign", fn: buildPGPClear, skip: noECDSA},
 		{name: "pgp-detached", fn: buildPGPDetached, skip: noECDSA},
+		// the three script fixtures as UTF-16-LE with a byte order mark (psmarkers.go)
+		{name: "ps1-utf16", fn: buildPSWide("hello.ps1")},
+		{name: "ps1xml-utf16", fn: buildPSWide("hello.ps1xml")},
+		{name: "mof-utf16", fn: buildPSWide("hello.mof")},
 	}
 }
 
